@@ -243,9 +243,11 @@ impl B {
 }
 
 fn exec_b(seq: &[Cyc], render: bool) -> RunOutput {
-    // the endpoint's own generator always proposes 7 first: re-use is forced, a leaked slot shows as another id
-    // (if 7 were still occupied the draws run through the script into the counter fallback)
-    let rng = vec![7u32; 48];
+    // the endpoint's own generator proposes 7 first in EVERY cycle (and 7 again for the next five draws of the cycle,
+    // after that fresh ids): re-use is forced, a leaked slot shows as another id. The 7s are handed to the generator at
+    // the start of each cycle, so that however many draws an implementation spends per request, the next cycle starts
+    // with 7 again
+    let rng: Vec<u32> = Vec::new();
     let cfg = SideCfg { opts: opts(E_RWND, 1).max_flow_id_retries(2), rng };
     let w = World::one(UNBOUNDED_CAP, 0, &cfg);
     let raw = Raw::new(1, w.sim.link.clone());
@@ -277,6 +279,11 @@ fn exec_b(seq: &[Cyc], render: bool) -> RunOutput {
     b.settle();
     for (pos, c) in seq.iter().enumerate() {
         let tag = 0x10 * (pos as u8 + 1) + (*c as u8);
+        {
+            let mut q = b.w.rng_inject[0].borrow_mut();
+            q.clear();
+            q.extend([7u32; 6]);
+        }
         let before = b.digest();
         if !before.is_empty() {
             b.v("leak.before-cycle", format!("cycle {pos} ({c:?}) starts at quiescence with a non-empty flow table {before:?}"));
@@ -540,34 +547,38 @@ fn exec_b(seq: &[Cyc], render: bool) -> RunOutput {
                 } else if pos > 0 {
                     b.wit |= W_REUSE_LOCAL;
                 }
+                let mut fid = 7u32;
                 if matches!(c, Cyc::LocalOpenRejectedOnce) {
                     b.raw.send(&RFrame::Reset { id: 7 });
                     let got = b.settle();
                     let ids: Vec<u32> = got.iter().filter_map(|m| if let RMsg::Frame(RFrame::Connect { id, .. }) = m { Some(*id) } else { None }).collect();
-                    if ids != [7] {
-                        b.v("retry.id", format!("cycle {pos}: after the peer rejected flow 7 the slot must be free and 7 proposed again; Connect ids seen {ids:?}"));
+                    // the request goes on with a new proposal: the same id again (it is free) or another one -- which one is
+                    // the implementation's business (C07 bounds the number of attempts); the cycle continues on that id
+                    match ids[..] {
+                        [n] if n != 0 => fid = n,
+                        _ => b.v("retry.id", format!("cycle {pos}: after the peer rejected flow 7 the request must go on with exactly one new Connect (non-zero id); Connect ids seen {ids:?}")),
                     }
                 }
-                b.raw.send(&RFrame::Acknowledge { id: 7, n: 2 });
+                b.raw.send(&RFrame::Acknowledge { id: fid, n: 2 });
                 let got = b.settle();
-                let pushes = got.iter().filter(|m| matches!(m, RMsg::Frame(RFrame::Push { id: 7, .. }))).count();
+                let pushes = got.iter().filter(|m| matches!(m, RMsg::Frame(RFrame::Push { id, .. }) if *id == fid)).count();
                 if pushes != 1 {
                     b.v("reuse.write-failed", format!("cycle {pos} ({c:?}): the write on the re-opened local flow must be transmitted once; got {got:?}"));
                 }
                 match c {
                     Cyc::LocalOpenAbort => {
-                        if !got.iter().any(|m| matches!(m, RMsg::Frame(RFrame::Reset { id: 7 }))) {
+                        if !got.iter().any(|m| matches!(m, RMsg::Frame(RFrame::Reset { id }) if *id == fid)) {
                             b.v("abort.no-reset", format!("cycle {pos}: stream dropped without shutdown, no Reset reached the peer: {got:?}"));
                         }
                     }
                     _ => {
-                        if !got.iter().any(|m| matches!(m, RMsg::Frame(RFrame::Finish { id: 7 }))) {
+                        if !got.iter().any(|m| matches!(m, RMsg::Frame(RFrame::Finish { id }) if *id == fid)) {
                             b.v("clean.no-finish", format!("cycle {pos}: no Finish after shutdown: {got:?}"));
                         }
                         let data = payload(tag, 1, 0, 1);
-                        b.raw.send(&RFrame::Push { id: 7, data: data.clone() });
+                        b.raw.send(&RFrame::Push { id: fid, data: data.clone() });
                         b.w.obs.borrow_mut().dir(tag, 1).written.extend(&data);
-                        b.raw.send(&RFrame::Finish { id: 7 });
+                        b.raw.send(&RFrame::Finish { id: fid });
                         b.settle();
                         let obs = b.w.obs.borrow();
                         let d = obs.dirs.get(&(tag, 1)).cloned().unwrap_or_default();
